@@ -390,3 +390,22 @@ RECIPES += [
      "            missing = 8 - c\n            v = np.append(v, np.zeros((len(v), missing)), axis=1)\n", "rdgrids np.append"),
     ("C13", "break", ["C13-R3"], B, "        d[tid] = np.vstack([vec[8:-1:2], vec[9:-1:2]]).T\n", "        d[tid] = vec[9:-1].reshape(-1, 2)\n", "rdtabled1 reshape starting one field late"),
 ]
+
+RECIPES += [
+    ("C13", "neutral", [], B, _T1_BODY, '''    per = 64 // n  # pairs on a full line
+    if n == 32:
+        head = "*       "
+        f.write(f"{tablestr + '*':<8s}{tid:16d}\\n*\\n")
+    else:
+        head = " " * 8
+        f.write(f"{tablestr:<8s}{tid:8d}\\n")
+    r = npts - npts % per
+    if r:
+        columns = [x[i:r:per] for i in range(per) for x in (t, d)]
+        writer.vecwrite(f, head + form * per + "\\n", *columns)
+    f.write(head)
+    for j in range(r, npts):
+        f.write(form.format(t[j], d[j]))
+    f.write("ENDT\\n")
+''', "tabled1 one code path for both field widths (per = 64 // n)"),
+]
